@@ -34,7 +34,7 @@ LEVEL_TEXT = ("Proof (Coq, no axioms): the hash join computes exactly the nested
               "children, parsing the printed token stream returns that tree (token level), and several where clauses "
               "mean conjunction. Lexer, resolver, planner (incl. pivot search), join and evaluation are modelled and "
               "tied to delphin/tsql.py by kernel-checked correspondence over generated databases and queries.")
-LEVEL_NOTE = ("Partial: character-level lexing, planning and the end-to-end select = project(filter(join)) composition "
+LEVEL_NOTE = ("The projection of `*` is a theorem (C11_star_projection). Partial: character-level lexing, planning and the end-to-end select = project(filter(join)) composition "
               "are covered by correspondence and the independent relational oracle, not by theorems; regex matching is "
               "an oracle; dates/floats not modelled.")
 TECHNIQUE = "Coq proof (join = nested loop, None rules, token-level parse-of-print) + kernel-checked correspondence"
